@@ -4,7 +4,9 @@ cd /verif
 props_for() { case "$1" in
   H01*) echo "C09 C15 C12 C04";; H02*) echo "C07 C08 C10 C12";; H03*) echo "C07 C08 C10 C12 C01";;
   H04*) echo "C01 C05 C13 C02";; H05*) echo "C02 C03 C05 C13 C01";; H06*) echo "C11 C10 C12 C03";;
-  H07*) echo "C16 C15";; H08*) echo "C06 C13 C14 C05 C03";; esac; }
+  H07*) echo "C16 C15";; H08*) echo "C06 C13 C14 C05 C03";;
+  H11*) echo "C03 C02 C05 C04";; H12*) echo "C01 C05 C04 C06";; H13*) echo "C05 C02 C03 C04";; H14*) echo "C16";;
+  H15*) echo "C10 C08 C13 C14 C16 C07";; H16*) echo "C02 C05 C01 C04";; H17*) echo "C09 C15 C11 C07 C10 C12";; H18*) echo "C14 C06 C07 C09";; esac; }
 for f in harmless/*.diff; do
   id=$(basename $f .diff)
   tools/try_harmless.sh $f $(props_for $id) 2>&1 | sed "s/^/$id /" | cut -c1-160
